@@ -34,7 +34,14 @@ THEOREMS = [_T + n for n in [
     "C03_multipolygon_iff",
     "C03_membersOkB_sound", "C03_buildTable_wellFormed", "C03_union_unique", "C03_union_eq", "C03_union_agrees",
     "C03_union_rejects", "C03_union_valid",
-    "C03_instance_passthrough", "C03_instance_revalidate_partial", "C03_instance_wrong_mode"]]
+    "C03_instance_passthrough", "C03_instance_revalidate_partial", "C03_instance_wrong_mode",
+    # follow-up (histories and construction paths): class-level entry points; Python's attribute lookup (where an
+    # attribute object keeps `type` / `coordinates`); geometry objects that came out of a construction handed back
+    # in; Python's argument binding under the extracted signatures; histories
+    "C03_class_entrypoints_agree", "C03_class_foreign_tag", "C03_attr_lookup", "C03_attr_missing",
+    "C03_carrier_get", "C03_carriers_agree", "C03_instance_of_constructed", "C03_union_instance_of_constructed",
+    "C03_call_styles", "C03_ctor_keyword_order",
+    "C03_history_stateless", "C03_history_prefix_independent", "C03_history_repeat"]]
 LEVEL_TEXT = ("Lean theorems over an executable model of the nine geometry classes (pydantic's typed parse of the "
               "annotated shape, then the class's field validators in the code's order and control flow) and of "
               "geometry_validate's mode/tag dispatch: for all rational coordinate structures, construction succeeds iff "
@@ -43,7 +50,13 @@ LEVEL_TEXT = ("Lean theorems over an executable model of the nine geometry class
               "class named by its tag, and a fixpoint of dump/re-validate; the constructor and the three modes agree, and "
               "so does validation against the `Geometry` union (the path by which geometries enter SoundEvent and AOEF "
               "objects); per class the acceptance condition is proved in elementary terms; the table built from "
-              "geom_type() over the class list is well formed. "
+              "geom_type() over the class list is well formed. The class-level entry points (model_validate, "
+              "model_validate_json, from_attributes) agree with the constructor; the attributes mode is modelled through "
+              "Python's attribute lookup (data descriptor, instance __dict__, class attribute, __getattr__), so every "
+              "kind of attribute object is proved to be read alike; calls are modelled through Python's argument binding "
+              "under the signature extracted from the code (positional, keyword, either keyword order, defaulted mode all "
+              "run the body on the same arguments; constructor keywords in either order); a history of calls is proved to "
+              "be the list of the models of its calls whatever state a process threads through. "
               "Every class's validator chain is re-derived from the source on each run by path-exhaustive symbolic "
               "tracing at fixed shapes and proved equal to the model for all coordinate values; GEOMETRY_MAPPING and "
               "MAX_FREQUENCY are re-extracted and discharged as obligations; exhaustive small structures and random "
@@ -53,28 +66,55 @@ LEVEL_NOTE = ("Trusted: Lean kernel; symbolic tracer (ordered-field semantics); 
               "instances and of ValueError inside validators (modelled, and exercised un-stubbed by the differential "
               "runs); CPython json and float repr round trip. Model tied to the code by regenerated obligations (fixed "
               "shapes up to 4 points / 2 rings / 2 parts; GEOMETRY_MAPPING, geom_type(), ALL_GEOMETRY_TYPES, the members "
-              "of the Geometry union, MAX_FREQUENCY) and generator-bounded correspondence. Unmodelled: non-numeric "
-              "inputs (strings, booleans, tuples: pydantic's lax coercions); tag-less inputs of the union; integers "
+              "of the Geometry union, MAX_FREQUENCY, the signatures of geometry_validate and of the nine constructors) and "
+              "generator-bounded correspondence. That the code reads an attribute object only through getattr, copies "
+              "the lists it is given and keeps no state between calls is not proved of Python: it is exercised (21 kinds "
+              "of attribute object, histories with reused / mutated arguments, poisoned and re-read results, argument "
+              "snapshots). Containers other than lists (tuples, numpy arrays, deques) and numpy scalars are generated "
+              "because pydantic's lax mode accepts them today; they carry no model of their own (same numbers, same "
+              "answer). Unmodelled: non-numeric inputs (strings, booleans: pydantic's lax coercions); numpy arrays with a "
+              "trailing dimension of 1 (numpy converts a size-1 array to a float); tag-less inputs of the union; integers "
               "beyond 2^53 (rounded by int->float). Non-finite floats have no rational value: the property is evaluated "
               "on them directly on the real objects (known finding C03-1: NaN / +inf times accepted, dumped as null). "
               "Known finding C03-2: an existing instance is handed back unvalidated by the attributes mode "
               "(C03_instance_passthrough; C03_instance_revalidate_partial holds for valid instances).")
 TECHNIQUE = ("Lean 4 proof over model; per-class validator chains symbolically traced and proved equal to the model; "
-             "table obligations by decide; exhaustive small-structure and random correspondence through four entry points")
+             "table and signature obligations by decide; exhaustive small-structure and random correspondence through "
+             "every entry point, way of passing and kind of attribute object; histories of calls in one process")
 RULE = ("exhaustive shape universes (all nestings to depth 3), exhaustive value tuples over the boundary pool for the "
         "flat classes, exhaustive point sequences, every leaf of nested bases replaced by every pool value, arity / "
         "nesting / count / order mutations, random structures; each through constructor and geometry_validate in "
-        "dict / json / attributes mode; non-trivial = the implementation accepted the input (an object exists); "
+        "dict / json / attributes mode; construction paths: every sample x 21 kinds of attribute object (where `type` / "
+        "`coordinates` live: instance, class body, property, slot, named tuple, __getattr__, shadowed; geometry objects "
+        "from constructor / model_copy / deepcopy / model_validate(_json) / pickle) x 6 call styles (positional, keyword, "
+        "all keywords, reversed keywords, default mode, obj= alone) x the 3 exported names, class-level model_validate / "
+        "model_validate_json (lax, strict) / from_attributes, tuples / numpy arrays / deques for lists, ints / numpy "
+        "int64 / float64 / float32 / -0.0 for floats, the union as SoundEvent.geometry (python and JSON); boundaries: "
+        "every pinned comparison with operands one ulp, 2^-20..2^-40, 1e-6..1e-12 apart on both sides and equal, at "
+        "magnitudes 0..2^40, every k/100 lattice point, 17 / 257 / 1024 / 1025 points or members; histories: 3-5 calls "
+        "in one process (x, a neighbour of x, x again) over all entry points with argument objects changed in place "
+        "and reused, returned geometries poisoned, earlier results re-read after later calls, arguments snapshotted "
+        "around every call - every step judged by the model of its call alone (SE.Validate.history); "
+        "non-trivial = the implementation accepted the input (an object exists); "
         "distinct = distinct (operation, input)")
 TRUSTED = ["pydantic-core: typed parse of float / List[...] in python and attribute mode, Literal + default handling, "
            "ValueError inside a field validator becomes ValidationError, other exceptions propagate; smart-mode unions "
            "try every member; an instance of the requested class is returned as it is",
            "CPython json.dumps/json.loads and float repr round trip (json mode)",
-           "symbolic tracer: the validator chain is taken from cls.__pydantic_decorators__.field_validators (order, mode)"]
-ASSUMPTIONS = ["model inputs are finite numbers: ints with |n| <= 2^53, binary64 floats and numpy.float64, in (nested) lists",
+           "symbolic tracer: the validator chain is taken from cls.__pydantic_decorators__.field_validators (order, mode)",
+           "CPython: attribute lookup order and argument binding are as modelled (Where.get, bindArgs); inspect.signature "
+           "reports the signature calls are bound against",
+           "pydantic-core: lax lists accept tuples / numpy arrays / deques, lax floats accept ints and numpy scalars, "
+           "without changing the numbers; the jiter JSON parser reads the repr of a float back to that float"]
+ASSUMPTIONS = ["model inputs are finite numbers: ints with |n| <= 2^53, binary64 floats, numpy.float64 / float32 / int64, in (nested) "
+               "lists (or tuples, numpy arrays with rows of >= 2 numbers, deques)",
                "ordered-field semantics for the symbolic tie (validators only compare, no arithmetic)"]
 NOT_COMPARED = ["error messages (only the error class)", "python type of the stored numbers (int inputs become floats)",
-                "non-numeric inputs (strings, booleans, tuples) and tag-less union inputs: not generated",
+                "non-numeric inputs (strings, booleans) and tag-less union inputs: not generated",
+                "numpy arrays with a trailing dimension of 1 (numpy lets float() take a size-1 array, so pydantic reads "
+                "[[1.0], [2.0]] as a pair): numpy's coercion, outside `numeric coordinate structure`; not generated",
+                "identity of returned objects (a geometry instance may be handed back as it is); only contents are compared",
+                "key order of dumps / field declaration order (keyword-only)",
                 "non-finite floats: no model value; judged by the property's own clauses on the real objects"]
 
 TYPES = ["TimeStamp", "TimeInterval", "Point", "LineString", "Polygon", "BoundingBox",
@@ -92,10 +132,26 @@ MODES = ["dict", "json", "attributes"]
 
 
 # ---------------------------------------------------------------- raw coordinate structures
-# leaves: "n/d" (a binary64 float with exactly that value), "i<n>" (a Python int) or "f<n/d>" (a numpy.float64
-# with that value - a subclass of float); lists nest freely
+# leaves: "n/d" (a binary64 float with exactly that value), "i<n>" (a Python int), "f<n/d>" (a numpy.float64 - a
+# subclass of float), "g<n/d>" (a numpy.float32 holding exactly that value), "l<n>" (a numpy.int64), "z0" (the float
+# -0.0: equal to 0, so neither negative nor out of range); lists nest freely
 class NpF(Fraction):
     """marks a leaf that is handed to the code as numpy.float64"""
+
+
+class Np32(Fraction):
+    """marks a leaf that is handed to the code as numpy.float32 (the value is a float32 value)"""
+
+
+class NpI(int):
+    """marks a leaf that is handed to the code as numpy.int64"""
+
+
+class NegZero(Fraction):
+    """marks the float -0.0"""
+
+
+MARKS = "ifglz"
 
 
 def enc(x):
@@ -103,35 +159,97 @@ def enc(x):
         return [enc(y) for y in x]
     if isinstance(x, bool):
         raise TypeError("bool")
+    if isinstance(x, NpI):
+        return f"l{int(x)}"
     if isinstance(x, int):
         return f"i{x}"
+    if isinstance(x, NegZero):
+        return "z0"
     if isinstance(x, NpF):
         return "f" + rat(Fraction(x))
+    if isinstance(x, Np32):
+        return "g" + rat(Fraction(x))
     return rat(x)
 
 
-def to_py(raw):
+def to_py(raw, plain=False):
+    """the Python value handed to the code (`plain`: numpy scalars as the Python numbers of the same value - what a
+    caller has to do before json.dumps, which refuses numpy.float32 / numpy.int64)"""
     if isinstance(raw, list):
-        return [to_py(x) for x in raw]
-    if isinstance(raw, str) and raw.startswith("i"):
-        return int(raw[1:])
-    np64 = isinstance(raw, str) and raw.startswith("f")
-    q = Fraction(raw[1:] if np64 else raw)
+        return [to_py(x, plain) for x in raw]
+    mark = raw[:1] if isinstance(raw, str) and raw[:1] in MARKS else ""
+    if mark == "z":
+        return -0.0
+    if mark in ("i", "l"):
+        n = int(raw[1:])
+        if mark == "l" and not plain:
+            import numpy
+            return numpy.int64(n)
+        return n
+    q = Fraction(raw[1:] if mark else raw)
     f = float(q)
     if Fraction(f) != q:
         raise InfraError(f"generator produced {raw}, which is not a binary64 value")
-    if np64:
+    if mark == "f" and not plain:
         import numpy
         return numpy.float64(f)
+    if mark == "g":
+        import numpy
+        g = numpy.float32(f)
+        if Fraction(float(g)) != q:
+            raise InfraError(f"generator produced {raw}, which is not a binary32 value")
+        return float(g) if plain else g
     return f
 
 
 def to_model_raw(raw):
     if isinstance(raw, list):
         return [to_model_raw(x) for x in raw]
-    if isinstance(raw, str) and raw[:1] in ("i", "f"):
+    if isinstance(raw, str) and raw[:1] in MARKS:
         return raw[1:]
     return raw
+
+
+SEQS = ("list", "tuple", "mixed", "ndarray", "deque", "shared")
+
+
+def restyle(v, seq, depth=0):
+    """the same numbers in other containers the annotation `List[...]` accepts today (pydantic's lax mode): tuples,
+    tuples and lists alternating, numpy arrays (rectangular structures only, else tuples), deques"""
+    if seq in (None, "list") or not isinstance(v, list):
+        return v
+    if seq == "shared":         # equal content as one shared object: [p, q, p] with the very same list p twice
+        memo = {}
+
+        def intern(x):
+            if not isinstance(x, list):
+                return x
+            y = [intern(z) for z in x]
+            return memo.setdefault(repr(y), y)
+        return intern(v)
+    if seq == "ndarray":
+        import numpy
+
+        def rect(x):
+            if not isinstance(x, list):
+                return ()
+            shapes = {rect(y) for y in x}
+            if len(shapes) > 1 or None in shapes:
+                return None
+            return (len(x),) + (shapes.pop() if shapes else ())
+        shp = rect(v)
+        # (a size-1 array also converts to a float - `float(numpy.array([1.0]))` - so pydantic reads `[[1.0], [2.0]]` as
+        # the pair (1.0, 2.0): numpy's doing, outside "numeric coordinate structure"; only rows of >= 2 numbers here)
+        if shp is not None and len(v) > 0 and 0 not in shp and shp[-1] >= 2:
+            return numpy.array(v, dtype=float)
+        seq = "tuple"
+    if seq == "deque":
+        import collections
+        return collections.deque(restyle(x, "list") for x in v) if depth == 0 else v
+    items = [restyle(x, seq, depth + 1) for x in v]
+    if seq == "tuple" or (seq == "mixed" and depth % 2 == 0):
+        return tuple(items)
+    return items
 
 
 def enc_out(v):
@@ -158,6 +276,8 @@ def _monitor(g):
     ta = _union_adapter()
     if ta is not None:      # the `Geometry` union: the path by which a geometry enters SoundEvent / AOEF objects
         checks.append(("union_dump_revalidates_equal", lambda: ta.validate_python(g.model_dump())))
+        # the object itself handed to a field annotated `Geometry` (SoundEvent(geometry=g)): an equal geometry
+        checks.append(("union_instance_kept_equal", lambda: ta.validate_python(g)))
     for name, thunk in checks:
         try:
             r = thunk()
@@ -176,25 +296,204 @@ def _impl_construct(inp):
     from soundevent import data
     cls = getattr(data, inp["cls"])
     kw = {}
+    if "coordinates" in inp["kw"] and inp.get("call") == "kwrev":      # keywords in the other order
+        kw["coordinates"] = restyle(to_py(inp["kw"]["coordinates"]), inp.get("seq"))
     if "type" in inp["kw"]:
         kw["type"] = inp["kw"]["type"]
-    if "coordinates" in inp["kw"]:
-        kw["coordinates"] = to_py(inp["kw"]["coordinates"])
+    if "coordinates" in inp["kw"] and "coordinates" not in kw:
+        kw["coordinates"] = restyle(to_py(inp["kw"]["coordinates"]), inp.get("seq"))
     return _canon(cls(**kw))
 
 
 EXTRA = {"id": "7", "coordinate": [1.0, 2.0], "Type": "Point", "uuid": None}
 
 
-def _py_fields(fields):
+def _py_fields(fields, seq=None, plain=False):
     d = {}
     if fields.get("extra"):          # keys / attributes the classes do not declare: ignored
         d.update(EXTRA)
     if "type" in fields:
         d["type"] = fields["type"]
     if "coordinates" in fields:
-        d["coordinates"] = to_py(fields["coordinates"])
+        d["coordinates"] = restyle(to_py(fields["coordinates"], plain), None if plain else seq)
     return d
+
+
+# ---- attribute objects that are not plain namespaces (HISTORIES.md section 2; seeded C03-9): where the two
+# attributes live.  `_layout` tells the Lean model the same thing (SE.Validate.AttrObj), `getattr` is computed there.
+CARRIERS = ("ns", "plain", "dc", "dc_default", "dc_frozen", "cls_type", "cls_both", "props", "slots", "dc_slots",
+            "namedtuple", "typed_nt", "getattr", "shadow", "prop_shadow",
+            "geom", "geom_copy", "geom_deepcopy", "geom_mv", "geom_mvj", "geom_pickle")
+OTHER_TAG = {"TimeStamp": "Point"}
+
+
+def _other_tag(t):
+    return OTHER_TAG.get(t, "TimeStamp")
+
+
+def _eff_carrier(carrier, d):
+    """the carrier actually used: some cannot omit an attribute (named tuples, dataclass fields), geometry instances
+    need both and a class of that name that accepts the coordinates"""
+    full = "type" in d and "coordinates" in d
+    if carrier in (None, "ns"):
+        return "ns"
+    if carrier.startswith("geom"):
+        return carrier if full and d["type"] in TYPES and not d.get("__extra__") else "ns"
+    if carrier in ("dc", "dc_frozen", "dc_slots", "namedtuple", "typed_nt", "cls_both", "shadow", "prop_shadow", "dc_default"):
+        return carrier if full else "plain"
+    if carrier == "cls_type":
+        return carrier if "type" in d else "plain"
+    return carrier
+
+
+def _attr_obj(carrier, d):
+    """an object exposing the entries of `d` as attributes in the way `carrier` says"""
+    try:
+        return _attr_obj_(carrier, d)
+    except InfraError:
+        raise
+    except Exception as e:  # noqa: BLE001 - the harness failed to build its own input: never an observation of the code
+        raise InfraError(f"attribute object {carrier!r} could not be built: {e!r}")
+
+
+def _attr_obj_(carrier, d):
+    import collections
+    import dataclasses
+    extra = {k: v for k, v in d.items() if k not in ("type", "coordinates")}
+    t, c = d.get("type"), d.get("coordinates")
+    has_t, has_c = "type" in d, "coordinates" in d
+    carrier = _eff_carrier(carrier, d if not extra else {**d, "__extra__": True})
+    if carrier == "ns":
+        return types.SimpleNamespace(**d)
+    if carrier == "plain":
+        class Row:
+            def __init__(self, **kw):
+                for k, v in kw.items():
+                    setattr(self, k, v)
+        return Row(**d)
+    if carrier in ("dc", "dc_frozen", "dc_slots", "dc_default"):
+        flds = [("coordinates", object)]
+        flds.append(("type", str, dataclasses.field(default=t)) if carrier == "dc_default" else ("type", str))
+        flds += [(k, object, dataclasses.field(default_factory=lambda v=v: v)) for k, v in extra.items() if k.isidentifier()]
+        D = dataclasses.make_dataclass("Row", flds, frozen=carrier == "dc_frozen", slots=carrier == "dc_slots")
+        return D(coordinates=c) if carrier == "dc_default" else D(coordinates=c, type=t)
+    if carrier == "cls_type":
+        Row = type("Row", (), {"type": t})
+        row = Row()
+        for k, v in d.items():
+            if k != "type":
+                setattr(row, k, v)
+        return row
+    if carrier == "cls_both":
+        return type("Row", (), dict(d))()
+    if carrier == "props":          # read-only properties over private fields; an absent attribute raises
+        ns = {"_d": dict(d)}
+        for name in set(d) | {"type", "coordinates"}:
+            def getter(self, name=name):
+                if name not in self._d:
+                    raise AttributeError(name)
+                return self._d[name]
+            ns[name] = property(getter)
+        return type("Row", (), ns)()
+    if carrier == "slots":          # an unassigned slot raises AttributeError
+        Row = type("Row", (), {"__slots__": tuple(sorted(set(d) | {"type", "coordinates"}))})
+        row = Row()
+        for k, v in d.items():
+            setattr(row, k, v)
+        return row
+    if carrier == "namedtuple":
+        names = ["type", "coordinates"] + [k for k in extra if k.isidentifier() and not k.startswith("_")]
+        return collections.namedtuple("Row", names)(**{k: d[k] for k in names})
+    if carrier == "typed_nt":
+        return typing.NamedTuple("Row", [("coordinates", object), ("type", str)])(coordinates=c, type=t)
+    if carrier == "getattr":
+        class Dyn:
+            def __getattr__(self, name):
+                if name in d:
+                    return d[name]
+                raise AttributeError(name)
+        return Dyn()
+    if carrier == "shadow":         # the class body names another class; the instance attribute overrides it
+        Row = type("Row", (), {"type": _other_tag(t), "coordinates": [-1.0]})
+        row = Row()
+        for k, v in d.items():
+            setattr(row, k, v)
+        return row
+    if carrier == "prop_shadow":    # properties; the instance __dict__ holds other values, which getattr never sees
+        ns = {"type": property(lambda self: t), "coordinates": property(lambda self: c)}
+        row = type("Row", (), ns)()
+        row.__dict__["type"] = _other_tag(t)
+        row.__dict__["coordinates"] = [-1.0]
+        return row
+    if carrier.startswith("geom"):
+        # an existing geometry object that came out of a construction path (C03_instance_of_constructed); where the
+        # construction refuses the coordinates there is no such object: a namespace instead
+        import copy
+        import pickle
+        from soundevent import data
+        cls = getattr(data, t, None)
+        try:
+            if carrier == "geom_mv":
+                g = cls.model_validate({"type": t, "coordinates": c})
+            elif carrier == "geom_mvj":
+                g = cls.model_validate_json(json.dumps({"type": t, "coordinates": _jsonable(c)}))
+            else:
+                g = cls(coordinates=c)
+            if carrier == "geom_copy":
+                g = g.model_copy()
+            elif carrier == "geom_deepcopy":
+                g = copy.deepcopy(g.model_copy(deep=True))
+            elif carrier == "geom_pickle":
+                g = pickle.loads(pickle.dumps(g))
+            return g
+        except Exception:  # noqa: BLE001
+            return types.SimpleNamespace(**d)
+    raise ValueError(carrier)
+
+
+def _jsonable(v):
+    if isinstance(v, (list, tuple)) or type(v).__name__ in ("ndarray", "deque"):
+        return [_jsonable(x) for x in v]
+    return float(v) if not isinstance(v, int) or isinstance(v, bool) else int(v)
+
+
+def _layout(carrier, fields):
+    """where the attributes live, for the model: {"type": where, "coordinates": where} (Lean: AttrObj)"""
+    d = {k: fields[k] for k in ("type", "coordinates") if k in fields}
+    carrier = _eff_carrier(carrier, {**d, **({"__extra__": True} if fields.get("extra") else {})})
+    t = fields.get("type")
+    r = to_model_raw(fields["coordinates"]) if "coordinates" in fields else None
+
+    def where(v, present, how):
+        if how == "inst":
+            return {"inst": v} if present else {}
+        if how == "plain":
+            return {"cls": {"how": "plain", "value": v}} if present else {}
+        if how == "data":
+            return {"cls": {"how": "data", "value": v if present else None}}
+        if how == "dyn":
+            return {"dyn": v} if present else {}
+        raise ValueError(how)
+    pt, pc = "type" in fields, "coordinates" in fields
+    if carrier in ("ns", "plain", "dc", "dc_frozen"):
+        return {"type": where(t, pt, "inst"), "coordinates": where(r, pc, "inst")}
+    if carrier == "dc_default":
+        return {"type": {"inst": t, "cls": {"how": "plain", "value": t}}, "coordinates": where(r, pc, "inst")}
+    if carrier == "cls_type":
+        return {"type": where(t, pt, "plain"), "coordinates": where(r, pc, "inst")}
+    if carrier == "cls_both":
+        return {"type": where(t, pt, "plain"), "coordinates": where(r, pc, "plain")}
+    if carrier in ("props", "slots", "dc_slots", "namedtuple", "typed_nt"):
+        return {"type": where(t, pt, "data"), "coordinates": where(r, pc, "data")}
+    if carrier == "getattr":
+        return {"type": where(t, pt, "dyn"), "coordinates": where(r, pc, "dyn")}
+    if carrier == "shadow":
+        return {"type": {"inst": t, "cls": {"how": "plain", "value": _other_tag(t)}},
+                "coordinates": {"inst": r, "cls": {"how": "plain", "value": ["-1"]}}}
+    if carrier == "prop_shadow":
+        return {"type": {"inst": _other_tag(t), "cls": {"how": "data", "value": t}},
+                "coordinates": {"inst": ["-1"], "cls": {"how": "data", "value": r}}}
+    return None     # geometry instances: judged as the attribute object (t, r) - C03_instance_of_constructed
 
 
 _ADAPTER = {}
@@ -216,11 +515,15 @@ def _union_adapter():
 def _py_obj(o):
     k = o["kind"]
     if k == "dict":
-        return _py_fields(o["fields"])
+        d = _py_fields(o["fields"], o.get("seq"))
+        if o.get("mapping") == "ordered":        # a dict subclass, keys in the other order
+            import collections
+            return collections.OrderedDict(reversed(list(d.items())))
+        return d
     if k == "json":
-        return json.dumps(_py_fields(o["fields"]))
+        return json.dumps(_py_fields(o["fields"], plain=True))
     if k == "attrs":
-        return types.SimpleNamespace(**_py_fields(o["fields"]))
+        return _attr_obj(o.get("carrier"), _py_fields(o["fields"], o.get("seq")))
     if k == "text":
         return o["text"]
     if k == "list":
@@ -228,16 +531,135 @@ def _py_obj(o):
     raise ValueError(k)
 
 
-def _impl_gv(inp):
+CALLS = ("pos", "kw", "allkw", "kwrev", "default", "objkw")
+
+
+def _gv_fn(name):
+    """the three places the function is exported from (the same behaviour is demanded of each)"""
+    import soundevent
     from soundevent import data
-    return _canon(data.geometry_validate(_py_obj(inp["obj"]), mode=inp["mode"]))
+    from soundevent.data import geometries as G
+    return getattr({"top": soundevent, "geometries": G}.get(name, data), "geometry_validate")
+
+
+def _call_gv(fn, obj, mode, style):
+    """positional / keyword passing in the documented order `geometry_validate(obj, mode="json")`"""
+    if style in (None, "kw"):
+        return fn(obj, mode=mode)
+    if style == "pos":
+        return fn(obj, mode)
+    if style == "allkw":
+        return fn(obj=obj, mode=mode)
+    if style == "kwrev":
+        return fn(mode=mode, obj=obj)
+    if style == "default":
+        return fn(obj)
+    if style == "objkw":
+        return fn(obj=obj)
+    raise ValueError(style)
+
+
+def _eff_mode(inp):
+    return "json" if inp.get("call") in ("default", "objkw") else inp["mode"]
+
+
+def _impl_gv(inp):
+    return _canon(_call_gv(_gv_fn(inp.get("fn")), _py_obj(inp["obj"]), inp["mode"], inp.get("call")))
 
 
 def _impl_union(inp):
+    via = inp.get("via")
+    if via in ("soundevent", "soundevent_json"):
+        # the real holder of a geometry: the `geometry: Optional[Geometry]` field of SoundEvent
+        from soundevent import data
+        rec = _recording()
+        if via == "soundevent":
+            obj = _py_obj(inp["obj"])
+            try:
+                se = data.SoundEvent(recording=rec, geometry=obj)
+            except Exception as e:  # noqa: BLE001
+                if _only_about(e, "geometry"):
+                    raise
+                raise InfraError(f"SoundEvent could not be built for a reason other than its geometry: {e!r}")
+        else:
+            if inp["obj"]["kind"] != "dict":
+                raise InfraError("soundevent_json needs a mapping")
+            text = json.dumps({"recording": json.loads(rec.model_dump_json()),
+                               "geometry": _py_fields(inp["obj"]["fields"], plain=True)})
+            try:
+                se = data.SoundEvent.model_validate_json(text)
+            except Exception as e:  # noqa: BLE001
+                if _only_about(e, "geometry"):
+                    raise
+                raise InfraError(f"SoundEvent could not be read for a reason other than its geometry: {e!r}")
+        if se.geometry is None:
+            raise ValueError("no geometry")
+        return _canon(se.geometry)
     ta = _union_adapter()
     if ta is None:
         raise AttributeError("soundevent.data.geometries.Geometry is gone")
+    if via == "json":
+        if inp["obj"]["kind"] != "dict":
+            raise InfraError("union json needs a mapping")
+        return _canon(ta.validate_json(json.dumps(_py_fields(inp["obj"]["fields"], plain=True))))
     return _canon(ta.validate_python(_py_obj(inp["obj"])))
+
+
+_REC = []
+
+
+def _recording():
+    if not _REC:
+        from soundevent import data
+        _REC.append(data.Recording(path="c03.wav", duration=1.0, channels=1, samplerate=8000))
+    return _REC[0]
+
+
+def _only_about(e, field):
+    """a pydantic ValidationError all of whose errors are located in `field`; other exceptions (a TypeError escaping
+    from a validator) are the observation themselves"""
+    errs = getattr(e, "errors", None)
+    if not callable(errs):
+        return True
+    try:
+        return all(er.get("loc", (None,))[:1] == (field,) for er in errs())
+    except Exception:  # noqa: BLE001
+        return True
+
+
+VIAS = ("model_validate", "model_validate_json", "from_attributes", "from_attributes_dict", "no_from_attributes",
+        "model_validate_strict_json")
+
+
+def _impl_class(inp):
+    """the class-level entry points of a geometry class (C03_class_entrypoints_agree)"""
+    from soundevent import data
+    cls = getattr(data, inp["cls"])
+    via = inp["via"]
+    f = inp["fields"]
+    if via == "model_validate":
+        return _canon(cls.model_validate(_py_fields(f, inp.get("seq"))))
+    if via == "model_validate_json":
+        return _canon(cls.model_validate_json(json.dumps(_py_fields(f, plain=True))))
+    if via == "model_validate_strict_json":     # strict JSON: lists of JSON numbers, ints allowed for floats
+        return _canon(cls.model_validate_json(json.dumps(_py_fields(f, plain=True)), strict=True))
+    if via == "from_attributes":
+        return _canon(cls.model_validate(_attr_obj(inp.get("carrier"), _py_fields(f, inp.get("seq"))), from_attributes=True))
+    if via == "from_attributes_dict":
+        return _canon(cls.model_validate(_py_fields(f, inp.get("seq")), from_attributes=True))
+    if via == "no_from_attributes":
+        return _canon(cls.model_validate(_attr_obj(inp.get("carrier"), _py_fields(f, inp.get("seq")))))
+    raise ValueError(via)
+
+
+def _model_class(inp):
+    via = inp["via"]
+    d = _doc(inp["fields"])
+    if via in ("from_attributes", "no_from_attributes"):
+        # whatever the carrier, `getattr` finds (type, coordinates) (C03_carrier_get); a geometry instance of the
+        # class itself is passed through with the normalised coordinates (C03_instance_of_constructed)
+        return {"cls": inp["cls"], "fa": via == "from_attributes", "src": {"kind": "object", **d}}
+    return {"cls": inp["cls"], "fa": via == "from_attributes_dict", "src": {"kind": "mapping", **d}}
 
 
 def _model_union(inp):
@@ -245,6 +667,13 @@ def _model_union(inp):
     k = o["kind"]
     if k in ("dict", "attrs"):
         d = _doc(o["fields"])
+        if k == "attrs" and _eff_carrier(o.get("carrier"), {**{x: 1 for x in o["fields"] if x != "extra"},
+                                                              "type": o["fields"].get("type"),
+                                                              **({"__extra__": True} if o["fields"].get("extra") else {})}).startswith("geom"):
+            # a geometry object that came out of a construction is kept by the union - what validating its content
+            # gives (C03_union_instance_of_constructed); where no such object exists a namespace was handed over,
+            # refused like the content
+            return {"src": {"kind": "mapping", **d}}
         return {"src": {"kind": "mapping" if k == "dict" else "object", **d}}
     return {"src": {"kind": "unusable"}}
 
@@ -291,8 +720,11 @@ def _doc(fields):
 
 def _model_construct(inp):
     kw = inp["kw"]
-    return {"cls": inp["cls"], "type": kw.get("type"),
-            "coordinates": to_model_raw(kw["coordinates"]) if "coordinates" in kw else None}
+    m = {"cls": inp["cls"], "type": kw.get("type"),
+         "coordinates": to_model_raw(kw["coordinates"]) if "coordinates" in kw else None}
+    if inp.get("call"):
+        m["call"] = inp["call"]
+    return m
 
 
 def _is_numeric(x):
@@ -309,7 +741,8 @@ def _model_gv(inp):
     elif k == "json":
         mo = {"kind": "str", "parsed": _doc(o["fields"])}
     elif k == "attrs":
-        mo = {"kind": "attrs", **_doc(o["fields"])}
+        lay = _layout(o.get("carrier"), o["fields"]) if o.get("carrier") else None
+        mo = {"kind": "attrobj", **lay} if lay is not None else {"kind": "attrs", **_doc(o["fields"])}
     elif k == "list":
         mo = {"kind": "val", "doc": "other"}
     elif k == "text":
@@ -329,7 +762,10 @@ def _model_gv(inp):
                 mo = {"kind": "str", "parsed": {"type": t, "coordinates": enc_out(c) if "coordinates" in v else None}}
     else:
         raise ValueError(k)
-    return {"mode": inp["mode"], "obj": mo}
+    m = {"mode": inp["mode"], "obj": mo}
+    if inp.get("call"):
+        m["call"] = inp["call"]
+    return m
 
 
 def _seen(inp):
@@ -339,10 +775,16 @@ def _seen(inp):
         if "coordinates" in kw and kw.get("type", inp["cls"]) == inp["cls"]:
             return inp["cls"], kw["coordinates"]
         return None
+    if "via" in inp and "fields" in inp:        # class-level entry points
+        f = inp["fields"]
+        reads = inp["via"] != "no_from_attributes"
+        if reads and "coordinates" in f and f.get("type", inp["cls"]) == inp["cls"]:
+            return inp["cls"], f["coordinates"]
+        return None
     if "mode" not in inp:        # the union path reads plain mappings only
         o, mode = inp["obj"], "dict"
     else:
-        o, mode = inp["obj"], inp["mode"]
+        o, mode = inp["obj"], _eff_mode(inp)
     ok = (mode, o["kind"]) in (("dict", "dict"), ("json", "json"), ("attributes", "attrs"))
     if ok and o["fields"].get("type") in TYPES and "coordinates" in o["fields"]:
         return o["fields"]["type"], o["fields"]["coordinates"]
@@ -392,7 +834,8 @@ def _flush(ctx, opname):
     for (inp, io, _a), ok in zip(q, res):
         if ok is not True:
             # the operation the input belongs to (the corpus stage flushes several operations at once)
-            opname = "construct" if "kw" in inp else ("geometry_validate" if "mode" in inp else "union_validate")
+            opname = ("construct" if "kw" in inp else "class_validate" if "fields" in inp else
+                      "geometry_validate" if "mode" in inp else "union_validate")
             ctx.fail("property", opname, inp=inp, impl={k: v for k, v in io.items() if k != "trace"},
                      detail="the declarative statement of the property (holdsB) rejects this observed input/output pair")
     ctx.tally("declarative-monitor", len(q))
@@ -409,6 +852,8 @@ OPS = {
     "geometry_validate": Op("geometry_validate", _impl_gv, to_model=_model_gv, compare=_compare, holds=_holds,
                             nontrivial=_nontrivial, shrink=True),
     "union_validate": Op("union_validate", _impl_union, to_model=_model_union, compare=_compare, holds=_holds,
+                         nontrivial=_nontrivial, shrink=True),
+    "class_validate": Op("class_validate", _impl_class, to_model=_model_class, compare=_compare, holds=_holds,
                          nontrivial=_nontrivial, shrink=True),
     "instance_validate": Op("instance_validate", _impl_instance, to_model=_model_instance, compare=_compare_instance,
                             nontrivial=_nontrivial),
@@ -443,7 +888,7 @@ FINDING_MATCHERS = {"instance_passthrough": _match_instance_passthrough, "nonfin
 def _run(ctx, batch):
     """batch: list of (op name, input)"""
     ctx._c03_queue = []
-    for name in ("construct", "geometry_validate", "union_validate", "instance_validate"):
+    for name in ("construct", "geometry_validate", "union_validate", "class_validate", "instance_validate"):
         inputs = [i for n, i in batch if n == name]
         if inputs:
             ctx.run_cases(OPS[name], inputs)
@@ -566,6 +1011,7 @@ def _tables(ctx):
                 "  SE.Proofs.C03.C03_table_wellFormed extracted_union\n"
                 "  (SE.Proofs.C03.C03_membersOkB_sound _ extracted_union_ok)\n")
         ctx.obligation("Geometry-union", usrc, {"table": "Geometry", "members": [n for _, n in rows]})
+    _signature_tables(ctx, G, mapping)
     # how the table is built: {geom.geom_type(): geom for geom in ALL_GEOMETRY_TYPES}.  The list is a private
     # detail: if it is gone nothing is demanded (the table itself is tied above).
     all_types = getattr(G, "ALL_GEOMETRY_TYPES", None)
@@ -578,6 +1024,59 @@ def _tables(ctx):
         ctx.obligation("ALL_GEOMETRY_TYPES", asrc, {"table": "ALL_GEOMETRY_TYPES", "classes": [n for _, n in rows]})
     else:
         ctx.note("ALL_GEOMETRY_TYPES is not a list any more: the construction of the table is not tied (the table itself is)")
+
+
+def _lean_sig(fn):
+    """inspect.signature as a Lean `SE.Validate.Sig` literal (+ a printable form)"""
+    import inspect
+    rows, shown = [], []
+    for prm in inspect.signature(fn).parameters.values():
+        kind = {prm.POSITIONAL_ONLY: ".posOnly", prm.POSITIONAL_OR_KEYWORD: ".posOrKw", prm.KEYWORD_ONLY: ".kwOnly"}.get(prm.kind)
+        name = prm.name
+        if kind is None:        # *args / **kwargs: can be left out of every call
+            kind, name, dflt = ".kwOnly", ("*" if prm.kind == prm.VAR_POSITIONAL else "**") + prm.name, 'some "()"'
+        elif prm.default is prm.empty:
+            dflt = "none"
+        else:
+            dflt = "some " + json.dumps(prm.default if isinstance(prm.default, str) else "<" + repr(prm.default)[:40] + ">")
+        rows.append(f"⟨{json.dumps(name)}, {kind}, {dflt}⟩")
+        shown.append(f"{name}:{kind[1:]}" + ("" if dflt == "none" else "=" + dflt[5:]))
+    return "[" + ", ".join(rows) + "]", shown
+
+
+def _signature_tables(ctx, G, mapping):
+    """Tie 1 for the way arguments are passed: the signature of geometry_validate must start `(obj, mode="json")`,
+    both passable by position or by name (C03_call_styles: every style of call then runs the body on the same
+    (obj, mode)); every geometry class takes keyword-only `type` (default: its tag) and `coordinates`, in either
+    order (C03_ctor_keyword_order)."""
+    fn = getattr(G, "geometry_validate", None)
+    try:
+        sig, shown = _lean_sig(fn)
+    except Exception as e:  # noqa: BLE001
+        ctx.pre_failed.append("geometry_validate-signature")
+        ctx.fail("obligation", "geometry_validate-signature", detail=f"signature of geometry_validate cannot be read: {e!r}",
+                 extra={"table": "signature"})
+    else:
+        ctx.obligation("geometry_validate-signature",
+                       f"def extracted_gv_sig : SE.Validate.Sig := {sig}\n"
+                       "theorem extracted_gv_sig_ok : SE.Validate.gvSigOkB extracted_gv_sig = true := by decide\n"
+                       "def extracted_call_styles := SE.Proofs.C03.C03_call_styles SE.Validate.table extracted_gv_sig extracted_gv_sig_ok\n",
+                       {"table": "signature", "op": "geometry_validate", "parameters": shown})
+    src, shown_all = [], {}
+    for key, cls in mapping.items():
+        name = getattr(cls, "__name__", repr(cls))
+        if name not in CTOR:
+            continue        # reported by the GEOMETRY_MAPPING obligation
+        try:
+            sig, shown = _lean_sig(cls)
+        except Exception as e:  # noqa: BLE001
+            sig, shown = f"[⟨{json.dumps(repr(e)[:60])}, .posOnly, none⟩]", [repr(e)[:60]]
+        shown_all[name] = shown
+        src.append(f"def extracted_ctor_{name} : SE.Validate.Sig := {sig}\n"
+                   f"theorem extracted_ctor_{name}_ok : SE.Validate.ctorSigOkB (SE.Validate.GType.tag {CTOR[name]}) extracted_ctor_{name} = true := by decide\n"
+                   f"def extracted_ctor_{name}_order := SE.Proofs.C03.C03_ctor_keyword_order {CTOR[name]} extracted_ctor_{name} extracted_ctor_{name}_ok\n")
+    if src:
+        ctx.obligation("constructor-signatures", "".join(src), {"table": "signature", "op": "construct", "parameters": shown_all})
 
 
 # ---------------------------------------------------------------- tie 1b: validator chains at fixed shapes
@@ -1102,12 +1601,38 @@ TEXTS = ["", "{", "[1, 2]", "1", "null", "\"TimeStamp\"", "{\"type\": \"TimeStam
          "{\"type\": \"BoundingBox\", \"coordinates\": [3, 5, 1e0, 2.0]}"]
 
 
+def _spice(rng, name, inp):
+    """the same case passed in a less usual way (positional / keyword, another carrier, another container)"""
+    import copy
+    inp = copy.deepcopy(inp)
+    if name == "construct":
+        inp["call"] = rng.choice(("kw", "kwrev"))
+        inp["seq"] = rng.choice(SEQS)
+    elif name == "geometry_validate":
+        kind = inp["obj"]["kind"]
+        inp["call"] = rng.choice(CALLS if inp["mode"] == "json" else CALLS[:4])
+        inp["fn"] = rng.choice(("data", "top", "geometries"))
+        if kind == "attrs":
+            inp["obj"]["carrier"] = rng.choice(CARRIERS)
+        if kind in ("attrs", "dict"):
+            inp["obj"]["seq"] = rng.choice(SEQS)
+    elif name == "union_validate":
+        inp["via"] = rng.choice(("json", "soundevent", "soundevent_json"))
+    return name, inp
+
+
 def _random(ctx, maxf, n):
     batch = []
     for i in range(n):
         cls = TYPES[i % 9]
         x = _rand_case(ctx, cls, maxf)
-        batch += entries(cls, enc(x))
+        es = entries(cls, enc(x))
+        batch += es
+        if i % 4 == 0:
+            batch.append(_spice(ctx.rng, *ctx.rng.choice(es)))
+            batch.append(("class_validate", {"cls": cls, "via": ctx.rng.choice(VIAS[:4]), "fields": {"coordinates": enc(x)},
+                                             "carrier": ctx.rng.choice(CARRIERS[:15])}))
+            ctx.tally("random:unusual-passing", 2)
     return batch
 
 
@@ -1171,6 +1696,591 @@ def _instance_cases(ctx, maxf):
 
 def _stage_instances(ctx):
     _run(ctx, _instance_cases(ctx, Fraction(MODEL_MAXF)))
+
+
+# ---------------------------------------------------------------- construction paths (HISTORIES.md section 2, 3)
+def _samples(ctx, maxf, per_class):
+    """per class: the valid bases, a reversed / un-normalised one and single-site mutations spread over the kinds
+    (out of range, arity, nesting, count, order)"""
+    pool = _pool()
+    out = {}
+    for cls, bases in _bases(maxf).items():
+        muts = []
+        for b in bases:
+            muts += list(_mutations(b, pool))[1:]
+        step = max(1, len(muts) // max(1, per_class - len(bases)))
+        picked = list(bases) + muts[ctx.rng.randrange(step)::step][:per_class - len(bases)]
+        out[cls] = picked
+    return out
+
+
+def _num_variants(x):
+    """the same values as ints / numpy scalars / negative zero where the value allows"""
+    import numpy
+
+    def conv(v, kind):
+        if isinstance(v, list):
+            return [conv(y, kind) for y in v]
+        v = Fraction(v)
+        if kind == "int":
+            return int(v) if v.denominator == 1 else v
+        if kind == "np.int64":
+            return NpI(int(v)) if v.denominator == 1 else v
+        if kind == "np.float64":
+            return NpF(v)
+        if kind == "np.float32":
+            return Np32(v) if Fraction(float(numpy.float32(float(v)))) == v else v
+        if kind == "negzero":
+            return NegZero(0) if v == 0 else v
+        raise ValueError(kind)
+    return {k: conv(x, k) for k in ("int", "np.int64", "np.float64", "np.float32", "negzero")}
+
+
+def _path_cases(ctx, maxf):
+    """every sample through every way of constructing / passing it: attribute objects of every kind, positional and
+    keyword calls, the three exported names of the function, the class-level entry points, tuples / arrays / deques
+    for lists, ints and numpy scalars for floats, the union through SoundEvent and through JSON"""
+    batch = []
+    rng = ctx.rng
+    samples = _samples(ctx, maxf, ctx.budget(10, 40))
+    n = {"carriers": 0, "calls": 0, "class": 0, "containers": 0, "numbers": 0, "union": 0}
+    for cls, xs in samples.items():
+        for x in xs:
+            raw = enc(x)
+            f = {"type": cls, "coordinates": raw}
+            # (a) attribute objects: where the attributes live x (valid, invalid) x nine classes
+            for carrier in CARRIERS:
+                o = {"kind": "attrs", "fields": f, "carrier": carrier}
+                batch.append(("geometry_validate", {"mode": "attributes", "obj": o, "call": rng.choice(("pos", "kw", "allkw", "kwrev"))}))
+                n["carriers"] += 1
+            for carrier in ("cls_type", "props", "slots", "namedtuple", "dc_slots", "geom_copy"):
+                batch.append(("class_validate", {"cls": cls, "via": "from_attributes", "fields": f, "carrier": carrier}))
+                batch.append(("union_validate", {"obj": {"kind": "attrs", "fields": f, "carrier": carrier}}))
+                n["carriers"] += 2
+            # (b) every style of call x every mode with its kind of object; the three exported names
+            for mode, kind in (("dict", "dict"), ("json", "json"), ("attributes", "attrs")):
+                for call in CALLS:
+                    m = "json" if call in ("default", "objkw") else mode
+                    o = {"kind": kind, "fields": f}
+                    if m != mode:       # the default mode handed a dict / an attribute object: refusal not demanded
+                        o["other_kind"] = True
+                    batch.append(("geometry_validate", {"mode": m, "call": call, "fn": rng.choice(("data", "top", "geometries")),
+                                                        "obj": o}))
+                    n["calls"] += 1
+            for call in ("kw", "kwrev"):
+                batch.append(("construct", {"cls": cls, "call": call, "kw": {"type": cls, "coordinates": raw}}))
+            batch.append(("construct", {"cls": cls, "call": "kwrev", "kw": {"coordinates": raw}}))
+            batch.append(("geometry_validate", {"mode": "dict", "obj": {"kind": "dict", "fields": f, "mapping": "ordered"}}))
+            n["calls"] += 4
+            # (c) class-level entry points
+            for via in VIAS:
+                for ff in (f, {"coordinates": raw}):
+                    batch.append(("class_validate", {"cls": cls, "via": via, "fields": ff}))
+                    n["class"] += 1
+            # (d) containers other than lists
+            for seq in SEQS[1:]:
+                batch.append(("construct", {"cls": cls, "seq": seq, "kw": {"coordinates": raw}}))
+                batch.append(("geometry_validate", {"mode": "dict", "obj": {"kind": "dict", "fields": f, "seq": seq}}))
+                batch.append(("geometry_validate", {"mode": "attributes", "obj": {"kind": "attrs", "fields": f, "seq": seq,
+                                                                                  "carrier": rng.choice(CARRIERS[:15])}}))
+                batch.append(("union_validate", {"obj": {"kind": "dict", "fields": f, "seq": seq}}))
+                batch.append(("class_validate", {"cls": cls, "via": "model_validate", "fields": f, "seq": seq}))
+                n["containers"] += 5
+            # (e) the union as the annotation of a real field, in python and JSON mode
+            for via in ("json", "soundevent", "soundevent_json"):
+                batch.append(("union_validate", {"via": via, "obj": {"kind": "dict", "fields": f}}))
+                n["union"] += 1
+            batch.append(("union_validate", {"via": "soundevent", "obj": {"kind": "attrs", "fields": f}}))
+            n["union"] += 1
+        # (f) number kinds on the bases (integral leaves), every entry point
+        for b in _bases(maxf)[cls] + [_int_base(cls, maxf)]:
+            for kind, y in _num_variants(b).items():
+                batch += entries(cls, enc(y))
+                batch.append(("class_validate", {"cls": cls, "via": "model_validate", "fields": {"coordinates": enc(y)}}))
+                batch.append(("geometry_validate", {"mode": "attributes", "obj": {"kind": "attrs", "carrier": "slots",
+                                                                                  "fields": {"type": cls, "coordinates": enc(y)}}}))
+                n["numbers"] += 7
+    # (g) dispatch through the carriers: missing attribute, unknown tag, another class's tag
+    k = 0
+    one = {"TimeStamp": enc(F(1)), "Point": enc([F(1), F(2)]), "BoundingBox": enc([F(3), F(5), F(1), F(2)])}
+    for carrier in CARRIERS[:15]:
+        for cls, raw in one.items():
+            for fields in ({"coordinates": raw}, {"type": cls}, {}, {"type": "Box", "coordinates": raw},
+                           {"type": cls.lower(), "coordinates": raw}, {"type": "MultiPoint", "coordinates": raw},
+                           {"type": cls, "coordinates": raw, "extra": True}):
+                batch.append(("geometry_validate", {"mode": "attributes", "obj": {"kind": "attrs", "fields": fields, "carrier": carrier}}))
+                k += 1
+    for t in sorted(n):
+        ctx.tally("paths:" + t, n[t])
+    ctx.tally("paths:carrier-dispatch", k)
+    ctx.exhaustive["construction paths"] = (
+        f"{sum(len(v) for v in samples.values())} samples (valid bases and single-site mutations of all nine classes) x "
+        f"{len(CARRIERS)} kinds of attribute object (namespace, plain class, dataclass plain / with default / frozen / slots, "
+        "class-level type, class-level both, read-only properties, __slots__, namedtuple, typing.NamedTuple, __getattr__, "
+        "class attribute shadowed by the instance, property shadowing the instance __dict__, geometry instances from the "
+        "constructor / model_copy / deepcopy / model_validate / model_validate_json / pickle); x 6 call styles (positional, "
+        "keyword, all keywords, keywords reversed, default mode, obj= alone) x 3 modes x the 3 exported names; constructor "
+        "keywords in both orders; OrderedDict; class-level model_validate / model_validate_json (lax, strict) / "
+        "from_attributes (object, dict) / without from_attributes; tuples, tuple/list mixes, numpy arrays, deques for lists; "
+        "ints, numpy.int64 / float64 / float32, -0.0 for floats; the union as SoundEvent.geometry in python and JSON mode; "
+        "missing / unknown / foreign tags through 15 carriers")
+    return batch
+
+
+def _int_base(cls, maxf):
+    """a valid structure with integral leaves only (so that every leaf can be an int / numpy.int64 / float32)"""
+    a, b, c = [F(0), F(0)], [F(1), F(4096)], [F(2), F(1)]
+    return {"TimeStamp": F(3), "TimeInterval": [F(0), F(2)], "Point": [F(0), F(4096)], "BoundingBox": [F(2), F(4096), F(0), F(0)],
+            "LineString": [c, b, a], "MultiPoint": [a, b], "Polygon": [[a, b, c]], "MultiLineString": [[a, b, c]],
+            "MultiPolygon": [[[a, b, c]], [[c, b, a], [a, c, b]]]}[cls]
+
+
+def _stage_paths(ctx):
+    _run(ctx, _path_cases(ctx, Fraction(MODEL_MAXF)))
+
+
+# ---------------------------------------------------------------- boundaries inside the domain (HISTORIES.md section 4)
+def _fl(x):
+    """the binary64 value nearest to x, exactly"""
+    return Fraction(float(x))
+
+
+def _around(c, scale_hint=None):
+    """binary64 values at tolerance-sized distances on both sides of c: one ulp, 1e-12 ... 1e-6 relative (absolute
+    around 0, down to the smallest denormal), and c itself"""
+    import math
+    c = Fraction(c)
+    out = {c}
+    cf = float(c)
+    out.add(Fraction(math.nextafter(cf, math.inf)))
+    out.add(Fraction(math.nextafter(cf, -math.inf)))
+    base = abs(c) if c != 0 else Fraction(scale_hint or 1)
+    for e in (6, 8, 9, 10, 12):
+        d = base / 10 ** e
+        for v in (c + d, c - d):
+            v = _fl(v)
+            if v != c:
+                out.add(v)
+    for k in (20, 30, 40):
+        out.add(c + Fraction(1, 1 << k) if _fl(c + Fraction(1, 1 << k)) == c + Fraction(1, 1 << k) else c)
+        out.add(c - Fraction(1, 1 << k) if _fl(c - Fraction(1, 1 << k)) == c - Fraction(1, 1 << k) else c)
+    return sorted(out)
+
+
+def _boundary_cases(ctx, maxf):
+    """every comparison the property pins (t >= 0, 0 <= f <= MAX, interval start <= end, box and line-string
+    normalisation `start > end`, strict `start < end` of a multi-line) with operands a tolerance apart, equal, and at
+    small and large magnitudes"""
+    batch = []
+    n = 0
+    zero = _around(0) + [NegZero(0)]
+    top = _around(maxf)
+    mags = [F(0), F(1), F(1000), F(10) ** 6, F(2) ** 40]            # times
+    fmags = [F(0), F(1), F(1000), maxf - 1]                         # frequencies
+    for v in zero:
+        for x in (v,):
+            batch += entries("TimeStamp", enc(x))
+        batch += entries("TimeInterval", enc([v, F(1)]))
+        batch += entries("TimeInterval", enc([v, v]))
+        batch += entries("Point", enc([v, F(1)]))
+        batch += entries("Point", enc([F(1), v]))
+        for i in range(4):
+            box = [F(1), F(1), F(2), F(2)]
+            box[i] = v
+            batch += entries("BoundingBox", enc(box))
+        batch += entries("LineString", enc([[F(1), F(1)], [v, F(2)]]))
+        batch += entries("LineString", enc([[F(0), v], [F(1), F(2)]]))
+        batch += entries("MultiPoint", enc([[F(1), F(1)], [v, v]]))
+        batch += entries("Polygon", enc([[[F(0), F(0)], [F(1), v], [v, F(1)]]]))
+        batch += entries("MultiLineString", enc([[[v, F(0)], [F(1), v]]]))
+        batch += entries("MultiPolygon", enc([[[[F(0), F(0)], [F(1), F(0)], [F(1), F(1)]]], [[[F(0), F(0)], [v, F(1)], [F(1), v]]]]))
+        n += 16
+    for v in top:
+        batch += entries("Point", enc([F(0), v]))
+        batch += entries("BoundingBox", enc([F(0), v, F(1), F(0)]))
+        batch += entries("BoundingBox", enc([F(0), F(0), F(1), v]))
+        batch += entries("LineString", enc([[F(0), F(0)], [F(1), v]]))
+        batch += entries("MultiPoint", enc([[F(0), v]]))
+        batch += entries("Polygon", enc([[[F(0), F(0)], [F(1), v], [F(2), F(1)]], [[F(0), F(0)], [F(1), F(0)], [F(1), v]]]))
+        batch += entries("MultiLineString", enc([[[F(0), F(0)], [F(1), v]], [[F(0), v], [F(1), F(0)]]]))
+        batch += entries("MultiPolygon", enc([[[[F(0), F(0)], [F(1), F(0)], [F(1), v]]]]))
+        n += 8
+    # two operands compared with each other
+    for a in mags:
+        for b in _around(a, 1):
+            if b < 0:
+                continue
+            batch += entries("TimeInterval", enc([a, b]))
+            batch += entries("TimeInterval", enc([b, a]))
+            batch += entries("BoundingBox", enc([a, F(1), b, F(2)]))
+            batch += entries("BoundingBox", enc([b, F(2), a, F(1)]))
+            batch += entries("LineString", enc([[a, F(1)], [a + 5, F(3)], [b, F(2)]]))
+            batch += entries("LineString", enc([[b, F(1)], [a, F(2)]]))
+            batch += entries("MultiLineString", enc([[[a, F(1)], [b, F(2)]]]))
+            batch += entries("MultiLineString", enc([[[F(0), F(1)], [a + 7, F(1)]], [[b, F(1)], [F(0), F(3)], [a, F(2)]]]))
+            n += 8
+    for a in fmags:
+        for b in _around(a, 1):
+            if b < 0 or b > maxf:
+                continue
+            batch += entries("BoundingBox", enc([F(0), a, F(1), b]))
+            batch += entries("BoundingBox", enc([F(1), b, F(0), a]))
+            n += 2
+    ctx.tally("boundaries:tolerance-offsets", n)
+    # every lattice point of non-dyadic axes: k/100 (times) and MAX - k/100 (frequencies), as the nearest float
+    m = 0
+    for k in range(0, 101):
+        t = _fl(Fraction(k, 100))
+        fq = _fl(maxf - Fraction(k, 100))
+        batch += entries("TimeStamp", enc(t), which=("construct", "json"))
+        batch += entries("Point", enc([t, fq]), which=("dict", "json", "union"))
+        batch.append(("geometry_validate", {"mode": "json", "obj": {"kind": "text", "text":
+                     '{"type": "TimeInterval", "coordinates": [%s, %s]}' % (k / 100, 1 + k / 100)}}))
+        m += 3
+    ctx.tally("boundaries:lattice", m)
+    # sizes at which an implementation could switch strategy: > 16, > 256, >= 1024 members
+    sizes = [16, 17, 256, 257, 1023, 1024, 1025] if ctx.thorough() else [17, 257, 1024, 1025]
+    q = 0
+    bads = ([F(-1, 1024), F(0)], [F(0), maxf + F(1, 1024)], [F(1), F(1), F(1)])
+    for sz in sizes:
+        # times are not monotone (odd points run three steps ahead): reversing is not sorting
+        pts = [[F(i + (3 if i % 2 else 0), 8), F((i * 37) % 4096)] for i in range(sz)]
+        bad_at = sorted({0, 16, sz // 2, sz - 1} & set(range(sz)))
+        variants = [("valid", pts), ("reversed", list(reversed(pts)))]
+        for n_i, i in enumerate(bad_at):
+            for n_b, bad in enumerate(bads):
+                if ctx.thorough() or (n_i + n_b) % 3 == 0:
+                    y = list(pts)
+                    y[i] = bad
+                    variants.append((f"bad@{i}", y))
+        variants.append(("tie", pts[:-1] + [[pts[0][0], F(1)]]))
+        for j, (label, y) in enumerate(variants):
+            one = ("construct", MODES[j % 3], "union", "dict", "attributes")[j % 5]
+            which = ("construct", one) if label.startswith("bad") else ("construct", MODES[j % 3], "union")
+            batch += entries("LineString", enc(y), which=which)
+            batch += entries("MultiPoint", enc(y), which=(one,))
+            batch += entries("Polygon", enc([y]), which=(MODES[(j + 1) % 3],))
+            batch += entries("MultiLineString", enc([y]), which=(one,))
+            if ctx.thorough() or j % 2 == 0:
+                batch += entries("MultiPolygon", enc([[pts[:3], y]]), which=("construct",))
+            q += 5
+        # many members rather than many points
+        tri = [[F(0), F(0)], [F(1), F(0)], [F(1), F(1)]]
+        for i in (None, 0, sz - 1):
+            polys = [[tri] for _ in range(sz)]
+            lines = [[[F(0), F(0)], [F(1), F(k % 7)]] for k in range(sz)]
+            if i is not None:
+                polys[i] = [tri[:2]]
+                lines[i] = [[F(1), F(0)], [F(1), F(1)]]
+            batch += entries("MultiPolygon", enc(polys), which=("construct", "json"))
+            batch += entries("MultiLineString", enc(lines), which=("construct", "attributes"))
+            batch += entries("Polygon", enc([tri] * sz if i is None else [tri] * i + [tri[:2]] + [tri] * (sz - i - 1)), which=("dict",))
+            q += 3
+    ctx.tally("boundaries:sizes", q)
+    ctx.exhaustive["boundaries"] = (
+        "every pinned comparison with operands one ulp / 2^-20..2^-40 / 1e-6..1e-12 (relative; absolute around 0, down to "
+        "the smallest denormal) apart on both sides, exactly equal and -0.0: t >= 0 and 0 <= f <= MAX in every position "
+        "of every class, interval start <= end, box swap and line reversal (start > end), strict multi-line order, at "
+        f"magnitudes 0, 1, 1e3, 1e6, 2^40 (times) and 0, 1, 1e3, MAX-1 (frequencies); every k/100 and MAX - k/100, k = 0..100; "
+        f"point / member counts {sizes} (valid, reversed, one bad member first / 16th / middle / last, tie)")
+    return batch
+
+
+def _stage_boundaries(ctx):
+    _run(ctx, _boundary_cases(ctx, Fraction(MODEL_MAXF)))
+
+
+# ---------------------------------------------------------------- histories (HISTORIES.md section 1)
+# A step is {"inp": {"op": <entry point>, "inp": <its input>}, "reuse": how | absent, "poison": bool}.  The model of a
+# history is `SE.Validate.history`: the list of the models of its calls (C03_history_stateless /
+# C03_history_prefix_independent: no call depends on what was called before).
+H_OPS = ("construct", "geometry_validate", "union_validate", "class_validate")
+H_REUSE = ("mutate", "rebind")
+H_GEOM_REUSE = ("geom_assign", "geom_copy_update", "geom_deepcopy_assign", "geom_copy_assign")
+
+
+def _h_build(step):
+    """live argument objects of one call"""
+    op, inp = step["op"], step["inp"]
+    from soundevent import data
+    if op == "construct":
+        kw = {}
+        if "type" in inp["kw"]:
+            kw["type"] = inp["kw"]["type"]
+        if "coordinates" in inp["kw"]:
+            kw["coordinates"] = to_py(inp["kw"]["coordinates"])
+        return {"op": op, "cls": getattr(data, inp["cls"]), "obj": kw, "kind": "kw"}
+    if op == "class_validate":
+        return {"op": op, "cls": getattr(data, inp["cls"]), "via": inp["via"], "obj": _py_fields(inp["fields"]), "kind": "dict"}
+    o = inp["obj"]
+    return {"op": op, "mode": inp.get("mode"), "call": inp.get("call"), "obj": _py_obj(o),
+            "kind": o["kind"] + ":" + str(o.get("carrier") or "")}
+
+
+def _h_call(a):
+    from soundevent import data
+    if a["op"] == "construct":
+        return a["cls"](**a["obj"])
+    if a["op"] == "class_validate":
+        if a["via"] == "model_validate_json":
+            return a["cls"].model_validate_json(json.dumps(a["obj"]))
+        return a["cls"].model_validate(a["obj"])
+    if a["op"] == "union_validate":
+        return _union_adapter().validate_python(a["obj"])
+    return _call_gv(data.geometry_validate, a["obj"], a["mode"], a["call"])
+
+
+def _h_canon(step, a, g):
+    return {"val": {"type": g.type, "cls": type(g).__name__, "coordinates": enc_out(g.coordinates)}}
+
+
+def _h_snapshot(a):
+    o = a["obj"]
+    if isinstance(o, (dict, str, list)):
+        return repr(o)
+    if isinstance(o, types.SimpleNamespace):
+        return repr(sorted(vars(o).items()))
+    return repr((type(o).__name__, getattr(o, "type", None), getattr(o, "coordinates", None)))
+
+
+def _h_fields(step):
+    op, inp = step["op"], step["inp"]
+    if op == "construct":
+        f = inp["kw"]
+    elif op == "class_validate":
+        f = inp["fields"]
+    else:
+        f = inp["obj"].get("fields")
+    if f is None:
+        return None
+    d = {}
+    if "type" in f:
+        d["type"] = f["type"]
+    if "coordinates" in f:
+        d["coordinates"] = to_py(f["coordinates"])
+    return d
+
+
+def _h_modify(a, step, how):
+    """the argument object of the previous step, changed in place to carry this step's content: the same dict /
+    namespace (and, with `mutate`, the same coordinates list object) - nothing remembered about it may survive"""
+    if how in H_GEOM_REUSE:
+        return _h_modify_geom(a, step, how)
+    new = _h_build(step)
+    if new["kind"] != a["kind"] or new["op"] != a["op"] or a["kind"] not in ("kw", "dict", "dict:", "attrs:", "attrs:ns"):
+        return None
+    d = _h_fields(step)
+    if d is None:
+        return None
+    old = a["obj"]
+    get = (lambda k: getattr(old, k, None)) if isinstance(old, types.SimpleNamespace) else (lambda k: old.get(k))
+    if how == "mutate" and isinstance(get("coordinates"), list) and isinstance(d.get("coordinates"), list):
+        lst = get("coordinates")
+        lst[:] = d["coordinates"]
+        d["coordinates"] = lst
+    if isinstance(old, types.SimpleNamespace):
+        for k in list(vars(old)):
+            delattr(old, k)
+        for k, v in d.items():
+            setattr(old, k, v)
+    else:
+        old.clear()
+        old.update(d)
+    new["obj"] = old
+    return new
+
+
+def _h_modify_geom(a, step, how):
+    """the geometry object handed over at the previous step, given this step's (valid, normal-form) coordinates by
+    assignment / model_copy(update=...) / a copy that is then assigned to - and handed over again.  (Should the classes
+    become frozen the assignment is refused: a fresh object then.)"""
+    import copy
+    g = a.get("obj")
+    inp = step["inp"]
+    o = inp.get("obj") or {}
+    f = o.get("fields") or {}
+    if (step["op"] not in ("geometry_validate", "union_validate") or not str(o.get("carrier", "")).startswith("geom")
+            or not o.get("normal") or not hasattr(g, "model_copy") or getattr(g, "type", None) != f.get("type")):
+        return None
+    c = to_py(f["coordinates"])
+    try:
+        if how == "geom_assign":
+            g.coordinates = c
+        elif how == "geom_copy_update":
+            g = g.model_copy(update={"coordinates": c})
+        elif how == "geom_deepcopy_assign":
+            g = copy.deepcopy(g)
+            g.coordinates = c
+        else:
+            g = copy.copy(g)
+            g.coordinates = c
+        if g.coordinates != c:
+            return None
+    except Exception:  # noqa: BLE001
+        return None
+    return {"op": step["op"], "mode": inp.get("mode"), "call": inp.get("call"), "obj": g, "kind": "attrs:geom"}
+
+
+def _normal_valid(rng, cls, maxf):
+    """valid coordinates already in normal form (box corners sorted, line string forward)"""
+    x = _rand_valid(rng, cls, maxf)
+    if cls == "BoundingBox":
+        x = [min(x[0], x[2]), min(x[1], x[3]), max(x[0], x[2]), max(x[1], x[3])]
+    if cls == "LineString" and x[0][0] > x[-1][0]:
+        x = list(reversed(x))
+    return x
+
+
+def _geom_histories(ctx, maxf, n):
+    """a geometry object as the argument: validated, changed (assignment, model_copy(update=...), copies), validated
+    again through the attributes mode and the union - the answer is the one for the coordinates it has now"""
+    rng = ctx.rng
+    hs = []
+    for i in range(n):
+        cls = TYPES[i % 9]
+        seq = []
+        for k in range(rng.randint(3, 5)):
+            f = {"type": cls, "coordinates": enc(_normal_valid(rng, cls, maxf))}
+            o = {"kind": "attrs", "carrier": "geom", "normal": True, "fields": f}
+            if rng.random() < 0.7:
+                st = {"inp": {"op": "geometry_validate", "inp": {"mode": "attributes", "obj": o}}}
+            else:
+                st = {"inp": {"op": "union_validate", "inp": {"obj": o}}}
+            if k:
+                st["reuse"] = rng.choice(H_GEOM_REUSE)
+            if rng.random() < 0.25:
+                st["poison"] = True
+            seq.append(st)
+        hs.append({"seq": seq})
+    return hs
+
+
+def _h_poison(g):
+    """the caller edits the geometry it got back: later calls must not see it"""
+    c = g.coordinates
+
+    def wreck(x):
+        if isinstance(x, list):
+            for y in x:
+                wreck(y)
+            x.append(-1.0)
+    if isinstance(c, list):
+        wreck(c)
+    try:
+        g.coordinates = -7.0 if not isinstance(c, list) else c
+        g.type = "Poisoned"
+    except Exception:  # noqa: BLE001 - a frozen class: nothing to assign
+        pass
+    return True
+
+
+def _h_holds(ctx, h, io):
+    if not isinstance(io, dict) or "steps" not in io:
+        return f"the history driver raised {io.get('raise') if isinstance(io, dict) else io}"
+    for nt in io.get("notes", []):
+        if nt["what"] == "argument-mutated":
+            return (f"step {nt['step']}: the call changed one of its arguments in place "
+                    f"(before {str(nt['before'])[:160]} after {str(nt['after'])[:160]})")
+        if nt["what"] == "result-changed-later":
+            nxt = h["seq"][nt["step"] + 1] if nt["step"] + 1 < len(h["seq"]) else {}
+            if nxt.get("reuse") == "geom_assign":
+                continue        # the harness itself assigned to that very object (the attributes mode hands an instance back)
+            return (f"the geometry returned at step {nt['step']} changed after later calls "
+                    f"(was {json.dumps(nt['first'])[:160]} now {json.dumps(nt['now'])[:160]})")
+    calls = [{"op": st["inp"]["op"], "args": OPS[st["inp"]["op"]].to_model(st["inp"]["inp"])} for st in h["seq"]]
+    mos = ctx.model("history", {"calls": calls})
+    trail = []
+    for k, (st, out, mo) in enumerate(zip(h["seq"], io["steps"], mos)):
+        base = OPS[st["inp"]["op"]]
+        trail.append(st["inp"]["op"] + (":reuse-" + str(st["reuse"]) if st.get("reuse") else "") + ("+poison" if st.get("poison") else ""))
+        msg = base.holds(ctx, st["inp"]["inp"], out) or base.compare(st["inp"]["inp"], out, mo)
+        if msg:
+            return (f"history step {k} ({' -> '.join(trail)}): {msg}: impl {json.dumps(out)[:200]} model {json.dumps(mo)[:200]}")
+    return None
+
+
+def _make_history_op():
+    from .. import history
+    hop = history.history_op("history", Op("call", None), _h_build, _h_call, _h_canon, snapshot=_h_snapshot,
+                             modify=_h_modify, poison=_h_poison)
+    return Op("history", hop.impl, holds=_h_holds, compare=lambda inp, io, mo: None, determined=True, no_model=True,
+              nontrivial=hop.nontrivial)
+
+
+OPS["history"] = _make_history_op()
+
+
+def _h_variants(x, rng):
+    """neighbours of a call: the same content through another entry point; the same class with one leaf out of range /
+    another valid value (same length, same first member); the same coordinates under another class of that shape;
+    the members reversed"""
+    op, inp = x["op"], x["inp"]
+    maxf = Fraction(MODEL_MAXF)
+    if op == "construct":
+        cls, raw = inp["cls"], inp["kw"].get("coordinates")
+    elif op == "class_validate":
+        cls, raw = inp["cls"], inp["fields"].get("coordinates")
+    else:
+        f = inp["obj"].get("fields") or {}
+        cls, raw = f.get("type"), f.get("coordinates")
+    if cls not in TYPES or raw is None:
+        return []
+    out = [{"op": o, "inp": i} for o, i in entries(cls, raw)]
+    out.append({"op": "class_validate", "inp": {"cls": cls, "via": "model_validate", "fields": {"coordinates": raw}}})
+    # a call that relies on the default mode, after calls that named one (an option must not leak into module state)
+    for call in ("default", "objkw", "pos"):
+        out.append({"op": "geometry_validate", "inp": {"mode": "json", "call": call,
+                                                       "obj": {"kind": "json", "fields": {"type": cls, "coordinates": raw}}}})
+    leaves = list(_leaf_paths(raw))
+    for _ in range(3):
+        if leaves:
+            p = rng.choice(leaves)
+            bad = _set(raw, p, enc(_rand_bad(rng, maxf)))
+            good = _set(raw, p, enc(F(rng.randint(0, 64), 8)))
+            for y in (bad, good):
+                out += [{"op": o, "inp": i} for o, i in entries(cls, y, which=(rng.choice(ALL_ENTRIES),))]
+    same_shape = {"LineString": "MultiPoint", "MultiPoint": "LineString", "Polygon": "MultiLineString",
+                  "MultiLineString": "Polygon", "TimeInterval": "Point", "Point": "TimeInterval"}
+    if cls in same_shape:
+        out += [{"op": o, "inp": i} for o, i in entries(same_shape[cls], raw, which=(rng.choice(ALL_ENTRIES),))]
+    if isinstance(raw, list) and len(raw) > 1:
+        out += [{"op": o, "inp": i} for o, i in entries(cls, list(reversed(raw)), which=(rng.choice(ALL_ENTRIES),))]
+    return out
+
+
+def _stage_histories(ctx):
+    """consecutive calls in one process on shared identities: x, a neighbour of x, x again; argument objects that are
+    changed in place and used again; returned geometries edited by the caller; earlier results read again after later
+    calls; every step judged by the model of its call alone"""
+    from .. import history
+    rng = ctx.rng
+    maxf = Fraction(MODEL_MAXF)
+    cases = []
+    for cls in TYPES:
+        xs = list(_bases(maxf)[cls]) + [_rand_valid(rng, cls, maxf) for _ in range(ctx.budget(3, 12))]
+        for x in xs:
+            for o, i in entries(cls, enc(_ints_variant(x, rng))):
+                cases.append({"op": o, "inp": i})
+    rng.shuffle(cases)
+    hs = history.sequences(rng, cases, ctx.budget(260, 2600), variants=_h_variants, reuse_hows=H_REUSE, poison=True)
+    # the C03-7 kind written out: a rejected member first, then valid ones of the same class, for every class and entry
+    for cls in TYPES:
+        good = _bases(maxf)[cls][0]
+        bad = enc(_set(good, next(iter(_leaf_paths(good))), F(-1))) if isinstance(good, list) else enc(F(-1))
+        for which in ALL_ENTRIES:
+            seq = [{"inp": {"op": o, "inp": i}} for o, i in entries(cls, bad, which=(which,)) + entries(cls, enc(good), which=(which,)) * 2]
+            hs.append({"seq": seq})
+    hs += _geom_histories(ctx, maxf, ctx.budget(90, 900))
+    for h in hs:
+        for st in h["seq"]:
+            ctx.tally("history:" + (("reuse-" + st["reuse"]) if st.get("reuse") else "fresh") + ("+poison" if st.get("poison") else ""))
+    ctx.run_cases(OPS["history"], hs)
+    ctx.exhaustive["histories"] = (f"{len(hs)} sequences of 3-5 calls (constructor, three modes, union, class-level) in one process: x, a "
+                                   "neighbour (other entry point / one leaf out of range or changed / another class of the same shape / "
+                                   "reversed), x again; dict / keyword / namespace arguments reused after in-place change (same container "
+                                   "and same coordinates list object); returned geometries poisoned in place; every live result "
+                                   "canonicalised again at the end; arguments snapshotted around every call; geometry objects as arguments changed by "
+                                   "assignment / model_copy(update=...) / copy + assignment between calls (valid normal-form coordinates)")
 
 
 def _nf(x):
@@ -1252,15 +2362,90 @@ def _stage_nonfinite_judged(ctx):
              "accepted although NaN is not >= 0 / the JSON dump (null) does not re-validate (known finding C03-1)")
 
 
+_CONFIRM = r"""
+import json, os, sys, warnings
+warnings.filterwarnings("ignore")
+sys.path.insert(0, os.environ["C03_VERIF"]); sys.path.insert(0, os.environ.get("SOUNDEVENT_SRC", "/repo/src"))
+from harness.props import c03
+from harness.core import canon_exc
+for op, inp in json.load(sys.stdin):
+    try:
+        out = c03.OPS[op].impl(inp)
+    except Exception as e:
+        out = canon_exc(e)
+    print(json.dumps(out, default=str))
+"""
+
+
+def _stage_confirm(ctx):
+    """Every failure found (smallest first) is run once more as the only thing a fresh process does.  One that does not
+    fail there exists only because of *other* earlier calls in this process (state carried between calls): it is
+    labelled as such and, when failures that do reproduce on their own were found as well (typically `history`
+    failures, whose replay is the whole sequence), those are reported instead."""
+    import os
+    import subprocess
+    import sys
+    from ..leanio import VERIF
+    def judged(f):      # not the known finding C03-2 (matched and reported by the framework afterwards)
+        return f.kind == "property" and f.op in OPS and isinstance(f.impl, dict) and not _match_instance_passthrough(f, None)
+    cands = [f for f in ctx.failures if judged(f)]
+    if not cands:
+        return
+
+    def strip(o):
+        if isinstance(o, dict):
+            return {k: strip(v) for k, v in o.items() if k != "trace"}
+        if isinstance(o, list):
+            return [strip(v) for v in o]
+        return o
+    single = sorted([f for f in cands if f.op != "history"], key=lambda f: f.size())[:12]
+    hist = sorted([f for f in cands if f.op == "history"], key=lambda f: f.size())[:12]
+    same, dependent = [], []
+    for f in single + hist:
+        try:
+            p = subprocess.run([sys.executable, "-c", _CONFIRM], input=json.dumps([[f.op, f.inp]]), text=True,
+                               stdout=subprocess.PIPE, stderr=subprocess.DEVNULL, timeout=120,
+                               env={**os.environ, "C03_VERIF": VERIF})
+            fresh = json.loads(p.stdout.strip().splitlines()[-1])
+        except Exception:  # noqa: BLE001 - no verdict on this one
+            continue
+        if strip(fresh) == strip(f.impl):
+            same.append(f)
+        else:
+            f.detail += (" [state carried between calls: run alone in a fresh process the same input gives "
+                         + json.dumps(strip(fresh))[:160] + "]")
+            dependent.append(f)
+    ctx.tally("confirm:fresh-process", len(single) + len(hist))
+    if dependent and same:
+        # the failures that were not re-run share the state of the process with those that were: keep only what is
+        # known to reproduce on its own
+        keep_ids = {id(f) for f in same}
+        dropped = [f for f in ctx.failures if id(f) not in keep_ids and judged(f)]
+        ctx.note(f"{len(dropped)} failures are not reported on their own: {len(dependent)} of the {len(single) + len(hist)} smallest "
+                 "exist only after other earlier calls in the same process (e.g. " + json.dumps(dependent[0].inp)[:200]
+                 + "); the replays reported reproduce in a fresh process")
+        drop_ids = {id(f) for f in dropped}
+        ctx.failures[:] = [f for f in ctx.failures if id(f) not in drop_ids]
+
+
 def run(ctx):
+    # The differential stages come first and the symbolic tracing last: tracing runs the validators on symbolic
+    # values, and code that keeps state between calls (a cache, a "last result") would keep *those* - the later
+    # differential runs would then observe crashes that no caller can reproduce.  Histories come last among the
+    # differential stages for the same reason (they poison returned objects on purpose): a failure that only
+    # shows after earlier calls is then reported with its history as the replay.
     ctx.stage("tables", _tables, ctx)
-    ctx.stage("symbolic-ties", _symbolic_ties, ctx)
-    ctx.stage("discharge", ctx.discharge, ["Proofs.C03", "SoundeventModel.ValidateTactics", "SoundeventModel.Tactics"])
     ctx.stage("corpus", _stage_corpus, ctx)
     ctx.stage("exhaustive", _stage_exhaustive, ctx)
     ctx.stage("instances", _stage_instances, ctx)
+    ctx.stage("paths", _stage_paths, ctx)
+    ctx.stage("boundaries", _stage_boundaries, ctx)
     ctx.stage("random", _stage_random, ctx)
     ctx.stage("non-finite", _stage_nonfinite_judged, ctx)
+    ctx.stage("histories", _stage_histories, ctx)
+    ctx.stage("fresh-process-confirmation", _stage_confirm, ctx)
+    ctx.stage("symbolic-ties", _symbolic_ties, ctx)
+    ctx.stage("discharge", ctx.discharge, ["Proofs.C03", "SoundeventModel.ValidateTactics", "SoundeventModel.Tactics"])
 
 
 # ---------------------------------------------------------------- directed search after a broken tie
@@ -1363,4 +2548,4 @@ def enc_out_frac_raw(raw):
     """raw input coordinates (with int / numpy markers) as the canonical output would show them"""
     if isinstance(raw, list):
         return [enc_out_frac_raw(x) for x in raw]
-    return rat(Fraction(raw[1:] if raw[:1] in ("i", "f") else raw))
+    return rat(Fraction(raw[1:] if raw[:1] in MARKS else raw))
